@@ -14,7 +14,13 @@
 #include <pthread.h>
 #include "hc.h"
 
-#define NB 27
+#define NB 29
+/* two types that declare a Cast instance of their own: cast(obj, T) must ask the OBJECT's type */
+struct CastAny { int64_t v; }; struct CastNone { int64_t v; };
+static var CastAny_Cast(var self, var type) { return self; }                                   /* accepts every target */
+static var CastNone_Cast(var self, var type) { return throw(KeyError, "CastNone refuses"); }   /* refuses every target, its own type included */
+var CastAny = Cello(CastAny, Instance(Cast, CastAny_Cast));
+var CastNone = Cello(CastNone, Instance(Cast, CastNone_Cast));
 #define NC 42
 /* decoy classes: user-defined class types whose NAMES extend, shorten or re-case the name of a built-in class
    (dispatch is by exact class name) */
@@ -34,7 +40,7 @@ static void tables(void) {
 #define T_(x) BT[i] = &x; BTN[i] = #x; i++;
   T_(Type) T_(Tuple) T_(Ref) T_(Box) T_(Int) T_(Float) T_(String) T_(Tree) T_(List) T_(Array) T_(Table) T_(Range) T_(Slice)
   T_(Zip) T_(Filter) T_(Map) T_(ValueError) T_(File) T_(Mutex) T_(Thread) T_(Process) T_(Function) T_(Exception) T_(GC)
-  T_(IOError) T_(KeyError) T_(_)
+  T_(IOError) T_(KeyError) T_(_) T_(CastAny) T_(CastNone)
 #undef T_
   i = 0;
 #define C_(x, n) CL[i] = &x; CLN[i] = #x; CLM[i] = n; i++;
@@ -150,7 +156,8 @@ int main(int argc, char** argv) {
       char buf[256]; var o = fake_obj(t, buf);
       volatile long long r = 0;
       HC_TRY(r = (cast(o, type_no(u)) == o) ? 1 : 0);
-      ev_begin("cast"); ev_int("t", t); ev_int("u", u); ev_int("r", r); ev_str("exc", hc_exc); ev_end();
+      ev_begin("cast"); ev_int("t", t); ev_int("u", u); ev_int("r", r); ev_str("exc", hc_exc);
+      ev_int("own", type_no(t) == CastAny ? 1 : type_no(t) == CastNone ? 2 : 0); ev_end();       /* what the object's type declares for Cast */
       continue;
     }
     if (hc_is(0, "threads")) {
